@@ -28,6 +28,9 @@ EXTENDS Integers, Sequences, FiniteSets, TLC, EGInt, EGGeom
 NUL   == 0
 NoCol == -1
 
+\* TLC keeps [i \in 1..n |-> e] as an unevaluated lambda and re-evaluates e on every application;
+\* concatenation forces it into an explicit tuple
+Mat(s) == s \o <<>>
 SetMin(S) == CHOOSE x \in S : \A y \in S : x <= y
 SetMax(S) == CHOOSE x \in S : \A y \in S : x >= y
 
@@ -44,10 +47,10 @@ RGet(R, px, py) ==
 RCanonical(R) ==
   /\ Len(R[5]) = R[4] /\ \A j \in 1..R[4] : Len(R[5][j]) = R[3]
   /\ IF R[3] = 0 \/ R[4] = 0 THEN R = EmptyRaster
-     ELSE /\ \E i \in 1..R[3] : R[5][1][i] # NoCol
-          /\ \E i \in 1..R[3] : R[5][R[4]][i] # NoCol
-          /\ \E j \in 1..R[4] : R[5][j][1] # NoCol
-          /\ \E j \in 1..R[4] : R[5][j][R[3]] # NoCol
+     ELSE /\ ~(\A i \in 1..R[3] : R[5][1][i] = NoCol)        \* (no \E: in an action conjunct TLC would
+          /\ ~(\A i \in 1..R[3] : R[5][R[4]][i] = NoCol)     \*  branch on every witness)
+          /\ ~(\A j \in 1..R[4] : R[5][j][1] = NoCol)
+          /\ ~(\A j \in 1..R[4] : R[5][j][R[3]] = NoCol)
 RShift(R, d) == IF R[3] = 0 THEN R ELSE <<R[1] + d[1], R[2] + d[2], R[3], R[4], R[5]>>
 \* smallest rectangle containing the rectangles of a non-empty sequence (empty ones ignored)
 RECURSIVE HullFrom(_, _, _)
